@@ -73,6 +73,7 @@ func main() {
 			code = 2
 			return
 		}
+		p.vmTable() // names the VM handlers by opcode before any key is built
 		c := newCtx(p, *prop, *tier)
 		for _, r := range pi.Rules {
 			r(c)
